@@ -179,12 +179,17 @@ func (p *producer[T]) settle() int {
 func drainAll[T any](cs []<-chan T, timeout time.Duration) ([][]T, bool) {
 	res := make([][]T, len(cs))
 	var wg sync.WaitGroup
+	var overflow atomic.Bool
 	for i, c := range cs {
 		wg.Add(1)
 		go func(i int, c <-chan T) {
 			defer wg.Done()
 			for v := range c {
 				res[i] = append(res[i], v)
+				if len(res[i]) > runawayLimit { // a stream that never ends: stop reading, report failure
+					overflow.Store(true)
+					return
+				}
 			}
 		}(i, c)
 	}
@@ -192,6 +197,9 @@ func drainAll[T any](cs []<-chan T, timeout time.Duration) ([][]T, bool) {
 	go func() { wg.Wait(); close(fin) }()
 	select {
 	case <-fin:
+		if overflow.Load() {
+			return nil, false
+		}
 		return res, true
 	case <-time.After(timeout):
 		return nil, false
